@@ -8,10 +8,10 @@ from rules import common
 
 CLAIMED = True
 TECHNIQUE = "static analysis over type-checked MIR: guarded-table extraction of the formatter-name chain (name -> chunk variant, alias groups) cross-checked with the module documentation, per-variant accessor table of FormattedChunk::encode with placeholder constants, constant-folded profile gating in dev and release builds, escape table of the parser, forward-iteration of every chunk loop"
-LEVEL_TEXT = """Static decision of the table clauses only (the recursive parser as a whole — nesting, arguments, adjacency — and date formatting are NOT claimed): (T1) the formatter-name table extracted from From<Piece> for Chunk: {d,date}->Time {f,file}->File {h,highlight}->Highlight {D,debug}->Debug {R,release}->Release {l,level}->Level {L,line}->Line {m,message}->Message {M,module}->Module {P,pid}->ProcessId {i,tid}->SystemThreadId {n}->Newline {t,target}->Target {T,thread}->Thread {I,thread_id}->ThreadId {X,mdc}->Mdc {""}->Align, equal to the names listed in the module documentation; (T2) FormattedChunk::encode's accessor table: Level->record.level(), Message->record.args(), Module/File/Line->record.module_path()/file()/line() with "???" exactly on their None edges, Target->record.target(), Thread->thread::current().name() (unnamed), ThreadId->thread_id::get, ProcessId->process::id, SystemThreadId->the TID thread-local, Newline->NEWLINE, Mdc->log_mdc::get(key) with the default, Time->{Utc,Local}::now().format(fmt) per zone; (T3) the children loop of Debug is reachable and that of Release is not in a dev build after constant folding, and the reverse in a release build; (T4) the Highlight arm only sets styles and encodes its children; (T5) in the parser, doubled and backslash-escaped {, }, (, ) and \\\\ produce a text piece of exactly that character; (T6) every chunk loop iterates forward, encoding each child once, and PatternEncoder::new collects the parser's pieces in order."""
+LEVEL_TEXT = """Static decision of the table clauses only (the recursive parser as a whole — nesting, arguments, adjacency — and date formatting are NOT claimed): (T1) the formatter-name table extracted from From<Piece> for Chunk: {d,date}->Time {f,file}->File {h,highlight}->Highlight {D,debug}->Debug {R,release}->Release {l,level}->Level {L,line}->Line {m,message}->Message {M,module}->Module {P,pid}->ProcessId {i,tid}->SystemThreadId {n}->Newline {t,target}->Target {T,thread}->Thread {I,thread_id}->ThreadId {X,mdc}->Mdc {""}->Align, equal to the names listed in the module documentation; (T2) FormattedChunk::encode's accessor table: Level->record.level(), Message->record.args(), Module/File/Line->record.module_path()/file()/line() with "???" exactly on their None edges, Target->record.target(), Thread->thread::current().name() (unnamed), ThreadId->thread_id::get, ProcessId->process::id, SystemThreadId->the TID thread-local, Newline->NEWLINE, Mdc->log_mdc::get(key) with the default, Time->{Utc,Local}::now().format(fmt) per zone; (T3) the children loop of Debug is reachable and that of Release is not in a dev build after constant folding, and the reverse in a release build; (T4) the Highlight arm only sets styles and encodes its children; (T5) in the parser, doubled and backslash-escaped {, }, (, ) and \\\\ produce a text piece of exactly that character; (T7) the date format string is either the default "%+" or accumulated from every piece of the first argument, in order, with no early exit; (T6) every chunk loop iterates forward, encoding each child once, and PatternEncoder::new collects the parser's pieces in order."""
 LEVEL_NOTE = "Trusted: rustc MIR/callee resolution; log::Record accessors; chrono formatting; the parser's recursive structure beyond the escape table is not analysed for semantic equivalence with the documented grammar."
 EXPLANATION = """Decided: T1 name table (+doc cross-check), T2 accessor table and placeholders, T3 profile gating (dev + release configs), T4 highlight adds only style, T5 escape table, T6 forward order. Undecided: the recursive parser as a whole (nesting, argument handling, adjacency of pieces), date formatting results."""
-DECIDED = ["T1", "T2", "T3", "T4", "T5", "T6"]
+DECIDED = ["T1", "T2", "T3", "T4", "T5", "T6", "T7"]
 UNDECIDED = ["recursive parser semantics (nesting/arguments/adjacency)", "date formatting"]
 TRUSTED = ["rustc nightly MIR + Instance::try_resolve", "log::Record", "chrono formatting"]
 
@@ -203,6 +203,49 @@ def run_cfg(ctx, p, cfg, release):
         for c in f.calls():
             if (c.callee or "").startswith("std::io::Write::") and c.fn is f:
                 r.require(deep_strip(c.arg(0)) == ("param", 2), "writes-to-w:%s" % common.role(c), fn=f, site=c.at, detail="output goes to the writer argument")
+
+    with ctx.rule("T7", "date format is the whole argument", cfg) as r:
+        f = p.fn(FROM_PIECE)
+        sites = [(b, i, s["rv"]) for b, i, s in f.assigns() if s["rv"]["k"] == "agg" and s["rv"].get("adt") == FCHUNK and s["rv"].get("variant") == "Time"]
+        r.require(len(sites) == 1, "one-time-chunk-site", fn=f, detail="FormattedChunk::Time constructions: %d" % len(sites))
+        for b, i, rv in sites:
+            op = rv["fields"][0]
+            pl = op.get("copy") or op.get("move")
+            defs = f.root_defs(pl["l"]) if pl and not pl["p"] else []
+            kinds = []
+            for db, e in defs:
+                e2 = strip(e, calls=set())
+                if deep_strip(e) == ("const", "str", "%+"):
+                    kinds.append("default")
+                elif e2[0] == "call" and e2[1] == "alloc::string::String::new":
+                    kinds.append("accumulator")
+                else:
+                    kinds.append("other:" + show(e, 4))
+            r.require(sorted(kinds) == ["accumulator", "default"], "format-is-default-or-accumulated", fn=f,
+                      detail="definitions of the format string: %s" % kinds,
+                      fail_detail="the date format handed to chrono has a definition that is neither the default \"%%+\" nor the string accumulated over every piece of the argument: %s — text after an escape (\\(, {{ ...) is dropped" % kinds)
+            # the accumulator loop visits every piece: push_str of the Text payload inside a loop over the argument, exits only by exhaustion
+            ps = [c for c in f.calls("alloc::string::String::push_str") if f.in_loop(c.block) and f.can_reach(c.block, b)]
+            txt = [c for c in ps if any(x[0] == "as" and x[2] == "Text" for x in walk(c.arg(1)))]
+            r.require(len(txt) == 1, "text-pieces-appended", fn=f, detail="push_str(text) inside the piece loop")
+            if txt:
+                nx = [n for n in f.calls(NEXT) if f.dominates(n.block, txt[0].block) and f.in_loop(n.block)]
+                nx = [n for n in nx if txt[0].block in f.reach(n.block) and n.block in f.reach(txt[0].block)]
+                if r.require(len(nx) >= 1, "piece-loop", fn=f, detail="the pieces are iterated"):
+                    n0 = sorted(nx, key=lambda n: -sum(1 for m in nx if f.dominates(m.block, n.block)))[0]
+                    it = n0.arg(0)
+                    bad = [x[1].rsplit("::", 1)[-1] for x in walk(it) if x[0] == "call" and x[1].rsplit("::", 1)[-1] in ("take", "skip", "rev", "filter", "step_by", "take_while")]
+                    r.require(not bad, "all-pieces-in-order", fn=f, detail="piece iterator %s" % show(it, 5))
+                    esc = q.skipping_paths(f, n0.block, [], {b}, cut_edges=())
+                    # leaving the loop towards the Time chunk only through exhaustion
+                    for blk in f.blocks:
+                        if blk["term"]["k"] == "switch" and blk["id"] in f.reachable_blocks():
+                            si = SwitchInfo(f, blk["id"])
+                            d = strip(si.discr)
+                            if d[0] == "discr" and strip(d[1])[0] == "call" and len(strip(d[1])) > 3 and strip(d[1])[3] == n0.block:
+                                st = si.target_of("Some")
+                                early = q.skipping_paths(f, st, [n0.block], {b})
+                                r.require(not early, "no-early-exit-from-piece-loop", fn=f, detail="from the Some edge the Time chunk is reached only through the next iterator step")
 
     with ctx.rule("T4", "highlight adds only style", cfg) as r:
         f = p.fn(FENCODE)
